@@ -283,7 +283,22 @@ fn check(ctx: &Ctx, c: &Case) -> PResult {
         }
         ctx.add_evals(1);
         ctx.label(&format!("adversary: {}", name.split(' ').take(4).collect::<Vec<_>>().join(" ")));
-        if g.eval(&asg).is_empty() && asg[ret_idx] != want {
+        let rejected = !g.eval(&asg).is_empty();
+        if rejected {
+            // the crafted choices with every derived wire re-solved from the actual rows
+            if let Some(done) = gadget::complete_candidate(&g, &asg, &[in_a, in_b], |x| x[ret_idx] != want) {
+                let real = g.prove_assignment(&done, c.seed)?;
+                return Err(Fail::new(
+                    "logic-forged-result-accepted",
+                    format!(
+                        "{} with {pairs} pairs on ({}, {}): assignment '{name}' completed by re-solving the derived wires satisfies every row with returned value {} != {} (real prover+verifier: {real:?})",
+                        if c.xor { "xor" } else { "and" },
+                        fe_short(&a), fe_short(&b), fe_short(&done[ret_idx]), fe_short(&want)
+                    ),
+                ));
+            }
+        }
+        if !rejected && asg[ret_idx] != want {
             let real = g.prove_assignment(&asg, c.seed)?;
             return Err(Fail::new(
                 "logic-forged-result-accepted",
